@@ -1,4 +1,6 @@
 CONSTANT Tier = "quick"
+CONSTANT PolicyCeilingApplies = TRUE
+CONSTANT RedelegatorMustBeLive = TRUE
 SPECIFICATION Spec
 INVARIANT Emit
 INVARIANT LDefaultDeny
